@@ -184,7 +184,13 @@ func runC16(w *mon.W) {
 				sb.WriteString(strings.Repeat(" ", r.Intn(17)) + rbText(r, 70) + "\n")
 			}
 		}
-		sb.WriteString("\n\nREBASE codes for commercial sources of enzymes\n\n")
+		if k%10 == 9 {
+			sb.Reset() // a listing that starts with the supplier table: no header prose at all
+			w.Add("listings_without_header_prose", 1)
+		} else {
+			sb.WriteString("\n\n")
+		}
+		sb.WriteString("REBASE codes for commercial sources of enzymes\n\n")
 		// supplier table
 		letters := "ABCDEFGHIJKLMNOPQRSTUVWXYZ"
 		nsup := r.Intn(27)
